@@ -40,6 +40,7 @@ Proof.
   intros Hm k Hk text cur n hc keys o Hc _ Ht.
   destruct (Hm _ _ _ _ Ht) as [Hty Heq].
   assert (Hl : is_linew (ttype o) = false) by (rewrite Hty; reflexivity).
+  assert (Hb : is_block (ttype o) = false) by (rewrite Hty; reflexivity).
   assert (Hr : snd (operator_range (bdoc (vbuf (st_of text cur))) o)
                <= fst (operator_range (bdoc (vbuf (st_of text cur))) o)).
   { rewrite operator_range_equal_ends by assumption. cbn [fst snd]. lia. }
